@@ -16,6 +16,7 @@ import (
 
 	"github.com/consensys/gnark-crypto/ecc"
 	"github.com/consensys/gnark/backend/groth16"
+	"github.com/consensys/gnark/constraint"
 	"github.com/consensys/gnark/frontend"
 	"github.com/consensys/gnark/frontend/cs/r1cs"
 	"verif/harness/ev"
@@ -353,6 +354,7 @@ func c12Body(c *ev.Ctx) {
 	for p := range paths {
 		np = append(np, p)
 	}
+	runPairIsolation(c, c12Pairs())
 	c.Set("evaluations", int64(done))
 	c.Set("distinct_nontrivial", int64(len(seeds)*len(dims)*2))
 	c.Set("map_seeds", int64(len(seeds)))
@@ -371,4 +373,45 @@ func c12Body(c *ev.Ctx) {
 	c.Sample(runs[len(runs)/2])
 	c.Set("rule", "each evaluation = one compilation in a fresh process built with a patched runtime whose map-iteration start position is VERIF_MAPSEED; product of (mode, dims) x construction path {BuildR1CS*, Setup*, Import*Setup, CLI r1cs} x seed x GOMAXPROCS {1,2,16} (+ runtime's own randomness, + 3 repetitions in one process, + a sequence of different dimensions compiled in one process vs. fresh processes); oracle: one SHA-256 of ConstraintSystem.WriteTo per (mode, dims); one public input in system, witness, verifying key and Solidity; deletion depth >= 32 refused, 31 builds; distinct = (seed, mode, dims) combinations")
 	c.Assume("map-iteration order is the only hidden nondeterminism of the goroutine-free compile path; seeds are uniform across iteration sites; maps larger than 8 buckets are covered for the listed spread of seeds only")
+}
+
+// c12Pairs: two builds overlapping in one process (two goroutines), different dimensions / different modes:
+// each must produce the constraint system it produces alone.
+func c12Pairs() []pairScenario {
+	build := func(mode string, d, b uint32) string {
+		var ccs constraint.ConstraintSystem
+		var err error
+		func() {
+			defer func() {
+				if r := recover(); r != nil {
+					err = fmt.Errorf("panic: %v", r)
+				}
+			}()
+			if mode == "insertion" {
+				ccs, err = prover.BuildR1CSInsertion(d, b)
+			} else {
+				ccs, err = prover.BuildR1CSDeletion(d, b)
+			}
+		}()
+		if err != nil {
+			return "error: " + err.Error()
+		}
+		h := sha256.New()
+		ccs.WriteTo(h)
+		return fmt.Sprintf("%s(%d,%d): %d constraints, %d secret inputs, sha256 %s", mode, d, b, ccs.GetNbConstraints(), ccs.GetNbSecretVariables(), hex.EncodeToString(h.Sum(nil)))
+	}
+	return []pairScenario{
+		{Name: "BuildR1CSInsertion(3,2) overlapping BuildR1CSInsertion(2,1)", MaxBound: 1, Parallel: true, F: func(i int) string {
+			if i == 0 {
+				return build("insertion", 3, 2)
+			}
+			return build("insertion", 2, 1)
+		}},
+		{Name: "BuildR1CSDeletion(2,3) overlapping BuildR1CSInsertion(2,2)", MaxBound: 1, Parallel: true, F: func(i int) string {
+			if i == 0 {
+				return build("deletion", 2, 3)
+			}
+			return build("insertion", 2, 2)
+		}},
+	}
 }
